@@ -396,8 +396,48 @@ impl Gen
     {
         let mut rules = self.rules.clone();
         let k = self.rng.below(rules.len() as u64) as usize;
-        match self.rng.below(7)
+        match self.rng.below(10)
         {
+            7 =>
+            {
+                // delete a rule nobody depends on (its targets stay behind as undeclared files)
+                let used = rules.iter().any(|r| r.sources.iter().any(|s| rules[k].targets.contains(s)));
+                if !used && rules.len() > 1
+                {
+                    rules.remove(k);
+                }
+            },
+            8 =>
+            {
+                // rename a target (new identity for its rule and for every rule that reads it)
+                let ti = self.rng.below(rules[k].targets.len() as u64) as usize;
+                let old = rules[k].targets[ti].clone();
+                let new = self.fresh_name("t");
+                for r in rules.iter_mut()
+                {
+                    for t in r.targets.iter_mut() { if *t == old { *t = new.clone(); } }
+                    for t in r.sources.iter_mut() { if *t == old { *t = new.clone(); } }
+                    for l in r.lines.iter_mut()
+                    {
+                        match l
+                        {
+                            Line::Emit{ target, inputs, .. } =>
+                            {
+                                if *target == old { *target = new.clone(); }
+                                for i in inputs.iter_mut() { if *i == old { *i = new.clone(); } }
+                            },
+                            Line::FailIf{ input } => { if *input == old { *input = new.clone(); } },
+                            Line::Fail => {},
+                        }
+                    }
+                }
+            },
+            9 =>
+            {
+                // permute the target and source lines: same rule, must not cost a rebuild
+                self.rng.shuffle(&mut rules[k].targets);
+                self.rng.shuffle(&mut rules[k].sources);
+            },
             0 | 1 =>
             {
                 // change a salt (= change the command)
